@@ -40,14 +40,15 @@ const (
 
 var formNames = []string{"Call", "Go", "RoundTrip", "CallWithContext", "Ping"}
 
-func c02Body(ncalls int, withClose bool) func(x *X) {
+func c02Body(ncalls int, withClose bool) func(x *X) { return c02BodyEnc(ncalls, withClose, "") }
+
+func c02BodyEnc(ncalls int, withClose bool, encName string) func(x *X) {
 	return func(x *X) {
 		script := x.Choose(6)
 		forms := make([]int, ncalls)
 		for i := range forms {
 			forms[i] = x.Choose(nForms)
 		}
-		encName := "" // default header path
 		enc := wireEncoder(encName)
 		cl, sv := NewPipe()
 		cl.WriteFaults = 0 // every request write may fail (fault budget)
@@ -201,5 +202,9 @@ func matchArgs(call *rpc.Call, c *c02call) bool {
 func init() {
 	register(&Scenario{Prop: "C02", Name: "c02/raw-1call-close", Quick: []Bound{{1, 1}, {2, 1}}, Thorough: []Bound{{2, 1}, {3, 1}, {3, 2}}, Body: c02Body(1, true), MinOutcomes: 3})
 	register(&Scenario{Prop: "C02", Name: "c02/raw-2calls", Quick: []Bound{{1, 1}}, Thorough: []Bound{{2, 1}, {2, 2}}, Body: c02Body(2, false)})
+	register(&Scenario{Prop: "C02", Name: "c02/raw-1call-close-yieldcodec", Quick: []Bound{{1, 1}}, Thorough: []Bound{{2, 1}}, Body: c02BodyEnc(1, true, "yield-pb")})
+	// the same closed system judged for crashes only (C08: a disconnecting or misbehaving peer must not panic a client)
+	register(&Scenario{Prop: "C08", Name: "c08/client-peer-scripts", Quick: []Bound{{2, 1}}, Thorough: []Bound{{3, 1}}, Body: c02Body(1, true), OnlyKeys: []string{"panic/", "livelock/"}})
+	register(&Scenario{Prop: "C08", Name: "c08/client-peer-scripts-yieldcodec", Quick: []Bound{{1, 1}}, Thorough: []Bound{{2, 1}}, Body: c02BodyEnc(2, true, "yield-pb"), OnlyKeys: []string{"panic/", "livelock/"}})
 	register(&Scenario{Prop: "C02", Name: "c02/raw-2calls-close", Quick: []Bound{{1, 0}}, Thorough: []Bound{{2, 1}}, Body: c02Body(2, true)})
 }
